@@ -719,7 +719,33 @@ class Interp:
             return globs[name]
         if name in BUILTINS:
             return BUILTINS[name]
+        if name == "hasattr":
+            return self._hasattr
+        if name == "getattr":
+            return self._getattr
         raise AnalysisError(f"model: unknown name `{name}`")
+
+    def _hasattr(self, obj, attr):
+        try:
+            self.getattr(obj, attr, ast.Name(id=f"<hasattr {attr}>"))
+            return True
+        except ModelRaise as e:
+            if e.name == "AttributeError":
+                return False
+            raise
+    _hasattr.model_callable = True
+
+    _NODEFAULT = object()
+
+    def _getattr(self, obj, attr, default=_NODEFAULT):
+        try:
+            return self.getattr(obj, attr, ast.Name(id=f"<getattr {attr}>"))
+        except ModelRaise as e:
+            if e.name == "AttributeError" and default is not \
+                    Interp._NODEFAULT:
+                return default
+            raise
+    _getattr.model_callable = True
 
     def ev(self, e, loc, globs, clo):
         self.steps += 1
